@@ -120,4 +120,89 @@ MUTANTS = {
         checks=["C05"],
         edits=[(L, 'toks.append(self._make_token("PPPRAGMASTR", text[start:pos], start))', 'toks.append(self._make_token("PPPRAGMASTR", text[start:pos].rstrip(), start))')],
     ),
+    "C09-bucket-order": dict(
+        what="punctuator buckets sorted shortest first (>>= lexes as >, >, =)",
+        checks=["C09"],
+        edits=[(L, "_bucket.sort(key=lambda item: len(item.literal), reverse=True)", "_bucket.sort(key=lambda item: len(item.literal))")],
+    ),
+    "C09-tab-linestart": dict(
+        what="a tab moves the line start (columns after a tab are off)",
+        checks=["C09"],
+        edits=[(L, '                case " " | "\\t":\n                    self._pos += 1', '                case " ":\n                    self._pos += 1\n                case "\\t":\n                    self._pos += 1\n                    self._line_start += 1')],
+    ),
+    "C09-pragma-linestart": dict(
+        what="#pragma handler does not move the line start to the next line",
+        checks=["C09"],
+        edits=[(L, "            self._lineno += 1\n            pos += 1\n            self._line_start = pos\n        self._pos = pos\n        return toks", "            self._lineno += 1\n            pos += 1\n        self._pos = pos\n        return toks")],
+    ),
+    "C09-line-plus-one": dict(
+        what="#line N makes the next line N+1",
+        checks=["C09"],
+        edits=[(L, "                    self._lineno = int(pp_line)", "                    self._lineno = int(pp_line) + 1")],
+    ),
+    "C09-keyword-lookup": dict(
+        what="type_lookup_func consulted for keywords too",
+        checks=["C09"],
+        edits=[(L, '                if tok_type == "ID" and self.type_lookup_func(value):', "                if self.type_lookup_func(value):")],
+    ),
+    "C09-error-skips-two": dict(
+        what="illegal character error skips the following character as well",
+        checks=["C09"],
+        edits=[(L, '            self._error(f"Illegal character {repr(text[pos])}", pos)\n            self._pos += 1', '            self._error(f"Illegal character {repr(text[pos])}", pos)\n            self._pos += 2')],
+    ),
+    "C09-pragma-swallow-line": dict(
+        what="an empty #pragma swallows the blanks/newline handling and eats the next line",
+        checks=["C09"],
+        edits=[(L, '        while pos < n and text[pos] in " \\t":\n            pos += 1\n\n        start = pos', '        while pos < n and text[pos] in " \\t\\n":\n            pos += 1\n\n        start = pos')],
+    ),
+    "C09-dollar": dict(
+        what="'$' no longer allowed inside identifiers",
+        checks=["C09"],
+        edits=[(L, '_identifier = r"[a-zA-Z_$][0-9a-zA-Z_$]*"', '_identifier = r"[a-zA-Z_$][0-9a-zA-Z_]*"')],
+    ),
+    "C10-hex-g": dict(
+        what="'g' accepted as a hexadecimal digit",
+        checks=["C10"],
+        edits=[(L, '_hex_digits = "[0-9a-fA-F]+"', '_hex_digits = "[0-9a-gA-F]+"')],
+    ),
+    "C10-bin-2": dict(
+        what="'2' accepted as a binary digit",
+        checks=["C10"],
+        edits=[(L, '_bin_digits = "[01]+"', '_bin_digits = "[012]+"')],
+    ),
+    "C10-exp-signs": dict(
+        what="several signs accepted in a decimal exponent",
+        checks=["C10"],
+        edits=[(L, '_exponent_part = r"""([eE][-+]?[0-9]+)"""', '_exponent_part = r"""([eE][-+]*[0-9]+)"""')],
+    ),
+    "C10-exp-nodigits": dict(
+        what="decimal exponent without digits accepted (1e)",
+        checks=["C10"],
+        edits=[(L, '_exponent_part = r"""([eE][-+]?[0-9]+)"""', '_exponent_part = r"""([eE][-+]?[0-9]*)"""')],
+    ),
+    "C10-hexfloat-noexp": dict(
+        what="hexadecimal floating constant without binary exponent accepted",
+        checks=["C10"],
+        edits=[(L, '    + _binary_exponent_part\n    + "[FfLl]?)"', '    + _binary_exponent_part\n    + "?[FfLl]?)"')],
+    ),
+    "C10-multichar-unbounded": dict(
+        what="multi-character constants of any length accepted",
+        checks=["C10"],
+        edits=[(L, "_cconst_char + \"{2,4}'\"", "_cconst_char + \"{2,}'\"")],
+    ),
+    "C10-empty-char": dict(
+        what="'' no longer reported (BAD_CHAR_CONST alternative removed)",
+        checks=["C10"],
+        edits=[(L, """[^'\\n]+')|('')|('\"\"\" + _bad_escape""", """[^'\\n]+')|('\"\"\" + _bad_escape""")],
+    ),
+    "C10-float-type-l": dict(
+        what="floating suffix l/L typed double",
+        checks=["C10", "C02"],
+        edits=[(P, '            elif tok.value[-1] in ("l", "L"):\n                t = "long double"', '            elif tok.value[-1] in ("L",):\n                t = "long double"')],
+    ),
+    "C10-bad-octal-silent": dict(
+        what="bad octal constants (09) no longer reported: lexed as two tokens",
+        checks=["C10"],
+        edits=[(L, '_bad_octal_constant = "0[0-7]*[89]"', '_bad_octal_constant = "0[0-7]*[89]x"')],
+    ),
 }
